@@ -151,6 +151,8 @@ type PodSpec struct {
 	ToleratesDisruption bool `json:"toleratesDisruption"`
 	// ReadyFalse: PodReady condition False (matters for PDBs with unhealthyPodEvictionPolicy AlwaysAllow).
 	ReadyFalse bool `json:"readyFalse"`
+	// Ext: scheduling-relevant extras (host port, preferred/required zone, anti-affinity, spread, pvc), see x_frame.go (C18).
+	Ext map[string]string `json:"ext,omitempty"`
 }
 
 type PDBSpec struct {
